@@ -10,7 +10,7 @@
    PARTIAL beyond that: the same whole-command frame for the other key kinds and for .build/.kube/.volume units, the special handlers
    and the position clauses are decided by the direct oracle of tools/props/C02.py on implementation output together with
    whole-service correspondence with the converter model. *)
-From QV Require Import Model.Base Generated.Tables Model.Quote Model.Unquote Model.Unit Model.Names Model.Convert Spec.Docs Proofs.C07 Proofs.C02 Proofs.C02run Proofs.C02types Proofs.Prio.
+From QV Require Import Model.Base Generated.Tables Model.Quote Model.Unquote Model.PortRange Model.Unit Model.Names Model.Convert Spec.Docs Proofs.C07 Proofs.C02 Proofs.C02run Proofs.C02types Proofs.Prio Proofs.C02shape.
 
 (* every (key, option) pair of the look-up tables found in the source today is the documented pair of the documented kind *)
 Theorem C02_tables :
@@ -191,3 +191,49 @@ Proof. exact network_frame_example. Qed.
 (* the model's type priorities are those of main.rs today (regenerated table) ... *)
 Theorem C02_priority_table : length priority_table = 7%nat /\ forall t, assoc_str (type_name t) priority_table = Some (type_priority t).
 Proof. exact priority_table_ok. Qed.
+
+(* ---- the whole-command clauses: global options before the sub-command, PodmanArgs after all key options, the object (image or
+   --rootfs R) after them, the Exec= words last -- for EVERY successful conversion (every handler only appends) ---- *)
+Theorem C02_container_command_shape : forall podman exists_path kill_fixed mount_nl u path tbl svc sp t',
+  from_container podman exists_path kill_fixed mount_nl u path tbl = COk (svc, sp, t') ->
+  exists before mods cname mid obj ports,
+    @lk_all berr u c_CONTAINER_SECTION (s2l "ContainersConfModule") = COk mods /\
+    @lk_all berr u c_CONTAINER_SECTION (s2l "ExposeHostPort") = COk ports /\
+    Forall (fun p => is_port_range (trim p) = true) ports /\
+    (exists m1 m2, mid = m1 ++ flat_map (fun p => [s2l "--expose"; trim p]) ports ++ m2) /\
+    (exists image, obj = [image] \/ obj = [s2l "--rootfs"; image]) /\
+    vals svc SEC_S (s2l "ExecStart") =
+      before ++ [quote_words (global_words podman mods u c_CONTAINER_SECTION
+                              ++ [s2l "run"; s2l "--name"; cname; s2l "--cidfile=%t/%N.cid"; s2l "--replace"; s2l "--rm"]
+                              ++ mid ++ lookup_all_args u c_CONTAINER_SECTION (s2l "PodmanArgs") ++ obj ++ exec_words u c_CONTAINER_SECTION)].
+Proof. exact container_shape. Qed.
+
+Theorem C02_image_command_shape : forall podman u path tbl svc sp t',
+  from_image podman u path tbl = COk (svc, sp, t') ->
+  exists before mods mid image,
+    @lk_all berr u c_IMAGE_SECTION (s2l "ContainersConfModule") = COk mods /\
+    @lk berr u c_IMAGE_SECTION (s2l "Image") = COk (Some image) /\
+    vals svc SEC_S (s2l "ExecStart") =
+      before ++ [quote_words (global_words podman mods u c_IMAGE_SECTION ++ [s2l "image"; s2l "pull"] ++ mid
+                              ++ lookup_all_args u c_IMAGE_SECTION (s2l "PodmanArgs") ++ [image])].
+Proof. exact image_shape. Qed.
+
+Theorem C02_network_command_shape : forall podman u path tbl svc sp t',
+  from_network podman u path tbl = COk (svc, sp, t') ->
+  exists before mods mid name,
+    @lk_all berr u c_NETWORK_SECTION (s2l "ContainersConfModule") = COk mods /\
+    network_name u path = COk name /\
+    vals svc SEC_S (s2l "ExecStart") =
+      before ++ [quote_words (global_words podman mods u c_NETWORK_SECTION ++ [s2l "network"; s2l "create"; s2l "--ignore"] ++ mid
+                              ++ lookup_all_args u c_NETWORK_SECTION (s2l "PodmanArgs") ++ [name])].
+Proof. exact network_shape. Qed.
+
+Theorem C02_pod_command_shape : forall podman mount_nl u path tbl svc sp t',
+  from_pod podman mount_nl u path tbl = COk (svc, sp, t') ->
+  exists before mods mid,
+    @lk_all berr u c_POD_SECTION (s2l "ContainersConfModule") = COk mods /\
+    vals svc SEC_S (s2l "ExecStartPre") =
+      before ++ [quote_words (global_words podman mods u c_POD_SECTION
+                              ++ [s2l "pod"; s2l "create"; s2l "--infra-conmon-pidfile=%t/%N.pid"; s2l "--pod-id-file=%t/%N.pod-id"; s2l "--exit-policy=stop"; s2l "--replace"]
+                              ++ mid ++ lookup_all_args u c_POD_SECTION (s2l "PodmanArgs"))].
+Proof. exact pod_shape. Qed.
